@@ -77,7 +77,7 @@ def quantify_arith(chk, F, rule, cfg):
             chk.ob(rule, 'push_responder pushes exactly once', False, config=cfg, fn=pr, site='push', what='push count', found=len(pushes))
     # who writes current_response_index / responders
     for field, allowed in (('current_response_index', {'build::dyn_builder::DynBuilderWrapper::<\'p>::quantify', 'build::dyn_builder::DynBuilderWrapper::<\'p>::push_responder', 'build::dyn_builder::DynCallPatternBuilder::new'}),):
-        users = sorted(set(b.defp for b, _, _, _ in L.field_accesses(F, 'build::dyn_builder::DynCallPatternBuilder', field)))
+        users = L.attributed(F, L.field_accesses(F, 'build::dyn_builder::DynCallPatternBuilder', field))
         chk.ob(rule, 'the running response index is only used by new / push_responder / quantify', set(users) <= allowed, config=cfg, site='field:%s' % field, what='users of %s' % field, found=users)
     atm = F.fn('counter::CallCountExpectation::add_to_minimum')
     for p in symex.Interp(F).run(atm):
@@ -159,6 +159,25 @@ def api_table(chk, F, rule, cfg):
                 qs = list(p.calls(r'DynBuilderWrapper::quantify$'))
                 nq += len(qs)
                 ok = len(qs) == 1 and strip(qs[0].data[2][1]) == times and strip(qs[0].data[2][2])[0] == 'agg' and strip(qs[0].data[2][2])[3] == ex
+                if not qs:
+                    # delegation to a sibling of this table (`once()` = `n_times(1)`): that sibling's own row is decided on its own,
+                    # so this function quantifies (the argument it passes, the sibling's exactness) and pushes as the sibling does
+                    for rx2, (np2, (times2, ex2)) in API.items():
+                        if rx2 == rx:
+                            continue
+                        sib = [e for e in p.calls() if re.search(rx2.replace('::<.*>::', '(::<.*>)?::').lstrip('^'), e.data[1]) or re.search(rx2, e.data[1])]
+                        sib = [e for e in sib if e.term and F.fns.get(symex.callee_def(e.term)) is not None and re.search(rx2, F.fns[symex.callee_def(e.term)].defp)]
+                        if len(sib) == 1 and rx2.split('::<')[0] == rx.split('::<')[0]:
+                            eff_times = strip(sib[0].data[2][1]) if times2 == ('param', 0, 2) else times2
+                            ok = eff_times == times and ex2 == ex and strip(sib[0].data[2][0]) == ('param', 0, 1) and \
+                                p.outcome[0] == 'return' and strip(p.outcome[1])[0] == 'call' and strip(p.outcome[1])[3] == sib[0].data[3]
+                            nq += 1
+                            qs = ['delegated']
+                            chk.ob(rule, '%s quantifies (%s, %s)' % (fn.name, show(times), ex), ok, config=cfg, fn=fn, site='quantify', what='delegates to %s(%s)' % (sib[0].data[1].rsplit('::', 1)[-1], show(eff_times)),
+                                   found=(show(eff_times), ex2), expected=(show(times), ex))
+                            break
+                    if qs == ['delegated']:
+                        continue
                 chk.ob(rule, '%s quantifies (%s, %s)' % (fn.name, show(times), ex), ok, config=cfg, fn=fn, site='quantify', what='quantify args %s' % ([(show(q.data[2][1]), show(q.data[2][2])) for q in qs]),
                        found=[(show(q.data[2][1]), show(q.data[2][2])) for q in qs], expected=(show(times), ex))
                 if needs_push and qs:
